@@ -7,6 +7,7 @@ import (
 	"context"
 	"errors"
 
+	"github.com/internetarchive/Zeno/internal/verifrt"
 	"github.com/internetarchive/gocrawlhq"
 )
 
@@ -15,11 +16,22 @@ import (
 
 var (
 	HQFaults    []bool // HQFaults[i] == true: the i-th call fails (5xx / timeout)
+	HQTimeout   bool   // the failing calls are requests that never get an answer: they end with the client's timeout
+	//                    or, earlier, when a deadline on the caller's context expires
 	HQCalls     int
 	HQAdded     [][]gocrawlhq.URL
 	HQDeleted   [][]gocrawlhq.URL
 	ErrHQFailed = errors.New("verifmodel: crawl HQ answered 5xx")
+	ErrHQTimeout = errors.New("verifmodel: crawl HQ request timed out")
 )
+
+func hqErr(ctx context.Context) error {
+	if HQTimeout {
+		verifrt.ExpireDeadline(ctx)
+		return ErrHQTimeout
+	}
+	return ErrHQFailed
+}
 
 func hqFail() bool {
 	i := HQCalls
@@ -30,7 +42,7 @@ func hqFail() bool {
 func HQAdd(c *gocrawlhq.Client, ctx context.Context, urls []gocrawlhq.URL, bypass bool) error {
 	runtime.Gosched() // network I/O: every interleaving with the other goroutines is possible here
 	if hqFail() {
-		return ErrHQFailed
+		return hqErr(ctx)
 	}
 	cp := make([]gocrawlhq.URL, len(urls))
 	copy(cp, urls)
@@ -41,7 +53,7 @@ func HQAdd(c *gocrawlhq.Client, ctx context.Context, urls []gocrawlhq.URL, bypas
 func HQDelete(c *gocrawlhq.Client, ctx context.Context, urls []gocrawlhq.URL, localCrawls int) error {
 	runtime.Gosched() // network I/O: every interleaving with the other goroutines is possible here
 	if hqFail() {
-		return ErrHQFailed
+		return hqErr(ctx)
 	}
 	cp := make([]gocrawlhq.URL, len(urls))
 	copy(cp, urls)
